@@ -29,6 +29,9 @@ func init() {
 		if p.Level == -3 {
 			ss = finalOpStreams()
 		}
+		if p.Level == -4 {
+			ss = libPrefixStreams()
+		}
 		for _, s := range ss {
 			if s.Name == p.Stream {
 				c05Cut(r, s, p.Level, p.Cut, newSiteMap(s))
@@ -125,7 +128,7 @@ func c05Cut(r *core.Run, s Stream, level, cut int, sm *siteMap) {
 func runC05(r *core.Run) {
 	bindRef(r)
 	level := 1 // both tiers: the full base menu
-	r.Rule = "for each base stream (.xz 1-3 blocks all checks, multi-chunk, size fields; raw LZMA2 with flushes/raw chunks/all chunk kinds; .lzma in three termination modes; library-, reference- and liblzma-written; 300 small reference-written streams ending in each kind of LZMA operation) EVERY proper prefix is decoded with the library reader; multi-stream: every cut except stream/4-byte padding boundaries. non-trivial = distinct (stream, outcome class, bytes delivered) triples"
+	r.Rule = "for each base stream (.xz 1-3 blocks all checks, multi-chunk, size fields; raw LZMA2 with flushes/raw chunks/all chunk kinds; .lzma in three termination modes; library-, reference- and liblzma-written; 300 small reference-written streams ending in each kind of LZMA operation; 378 library-written .lzma streams for every prefix of a text in the three termination modes) EVERY proper prefix is decoded with the library reader; multi-stream: every cut except stream/4-byte padding boundaries. non-trivial = distinct (stream, outcome class, bytes delivered) triples"
 	streams := readerStreams(level)
 	{
 		lim := 1500 // quick: the small liblzma-written files of the frozen corpus; thorough: up to 20 KB
@@ -169,6 +172,14 @@ func runC05(r *core.Run) {
 		sm := newSiteMap(s)
 		for k := 0; k < len(s.Data); k++ {
 			jobs = append(jobs, job{s, k, sm, -3})
+		}
+		r.Trace(1)
+	}
+	for _, s := range libPrefixStreams() {
+		sm := newSiteMap(s)
+		// the header and the first bytes are covered by the other families: cuts in the second half
+		for k := len(s.Data) / 2; k < len(s.Data); k++ {
+			jobs = append(jobs, job{s, k, sm, -4})
 		}
 		r.Trace(1)
 	}
